@@ -45,7 +45,7 @@ Inductive ccase :=
 Definition chk18 (css : list (str * (Z * Z * Z))) (c : ccase) : nat :=
   match c with
   | CDur us enc dec =>
-      if (us mod 1000000 =? 0)%Z && negb (optZ_eqb dec (Some us)) then 1
+      if negb (optZ_eqb dec (Some us)) then 1
       else if negb (dur_lexical enc) then 2
       else if negb (str_eqb enc (dur_encode us)) then 3
       else if negb (optZ_eqb dec (dur_decode enc)) then 4
